@@ -6,11 +6,14 @@ import (
 	"bytes"
 	"crypto"
 	"crypto/tls"
+	"crypto/x509"
 	"encoding/json"
 	"encoding/pem"
 	"fmt"
+	"github.com/sassoftware/relic/v8/xverif/tsa"
 	"io"
 	"net"
+	"net/http/httptest"
 	"os"
 	"os/exec"
 	"path/filepath"
@@ -48,8 +51,12 @@ var (
 // keys served through the recording token (latency and jitter are injected there)
 var recKeys = []string{"rec-rsa", "rec-p256"}
 
+// keys whose signatures get a time-stamp: key -> name of the authority configured for it
+var tsKeys = map[string]string{"ts-default": "default", "ts-alt": "alt", "ts-alt-rec": "alt"}
+var tsaCert = map[string]*x509.Certificate{}
+
 func TestMain(m *testing.M) {
-	rec.Rule("cases = mixes of 4-64 requests (sign with drawn key incl. keys behind a latency-injecting token, signature type in {ps, pe-coff, jar, pgp, msi}, digest, body; list-keys; key-info; health) issued by 2-32 concurrent clients over real TLS to the daemon (race detector on, GOMAXPROCS drawn from {2, 4, 16}, token cache expiry 1 s, optional token rate limit), optionally with daemon shutdown while one request is parked inside the token; oracle = every response equals the isolated verdict: the returned signature applied to that request's own body verifies, is made with that request's key and digest; listings and key-info equal the configuration; no data race report; audit record count = successful signs; the parked request completes with a valid signature, new connections are refused after shutdown; non-trivial = mix with >= 2 overlapping signs that differ in key, type or body; distinct = rendering of the mix")
+	rec.Rule("cases = mixes of 4-64 requests (sign with drawn key incl. keys behind a latency-injecting token, signature type in {ps, pe-coff, jar, pgp, msi}, digest, body; list-keys; key-info; health) issued by 2-32 concurrent clients over real TLS to the daemon (race detector on, GOMAXPROCS drawn from {2, 4, 16}, token cache expiry 1 s, optional token rate limit), optionally with daemon shutdown while one request is parked inside the token; oracle = every response equals the isolated verdict: the returned signature applied to that request's own body verifies, is made with that request's key and digest; listings and key-info equal the configuration; no data race report; audit record count = successful signs; audit file appended to by 2-32 goroutines at once (records below and above 4 KiB) holds every record exactly once, one JSON object per line; the parked request completes with a valid signature, new connections are refused after shutdown; non-trivial = mix with >= 2 overlapping signs that differ in key, type or body; distinct = rendering of the mix")
 	rec.Assume("the Go scheduler is not owned by the harness: interleavings are explored by repetition under the race detector, not enumerated")
 	if cfgPath := os.Getenv("VERIF_C14_DAEMON"); cfgPath != "" {
 		daemonChild(cfgPath)
@@ -72,11 +79,33 @@ func TestMain(m *testing.M) {
 	cfg.Keys["hidden"] = &config.KeyConfig{Token: "file", KeyFile: cfg.Keys["p384a"].KeyFile, X509Certificate: cfg.Keys["p384a"].X509Certificate, Roles: []string{"signer"}, Hide: true}
 	cfg.Keys["other-role"] = &config.KeyConfig{Token: "file", KeyFile: cfg.Keys["p384a"].KeyFile, X509Certificate: cfg.Keys["p384a"].X509Certificate, Roles: []string{"nobody"}}
 	cfg.Server.TokenCacheSeconds = 1
+	// two time-stamping authorities: the default one and a named one that some keys select
+	for i, name := range []string{"default", "alt"} {
+		a, err := tsa.NewAuthority(keys.Key([]string{"p256b", "rsa2048b"}[i]), env.Inter.Key, env.Inter.Cert, time.Now().Add(-time.Hour), "c14 tsa "+name)
+		if err != nil {
+			panic(err)
+		}
+		srv := httptest.NewServer(a.Handler(func(int, string) tsa.Behaviour { return tsa.Valid }))
+		defer srv.Close()
+		tsaCert[name] = a.Cert
+		if cfg.Timestamp == nil {
+			cfg.Timestamp = &config.TimestampConfig{Timeout: 60, NamedURLs: map[string][]string{}}
+		}
+		if name == "default" {
+			cfg.Timestamp.URLs = []string{srv.URL}
+		} else {
+			cfg.Timestamp.NamedURLs[name] = []string{srv.URL}
+		}
+	}
+	cfg.Keys["ts-default"] = &config.KeyConfig{Token: "file", KeyFile: cfg.Keys["rsa2048a"].KeyFile, X509Certificate: cfg.Keys["rsa2048a"].X509Certificate, Roles: []string{"signer"}, Timestamp: true}
+	cfg.Keys["ts-alt"] = &config.KeyConfig{Token: "file", KeyFile: cfg.Keys["p256a"].KeyFile, X509Certificate: cfg.Keys["p256a"].X509Certificate, Roles: []string{"signer"}, Timestamper: "alt"}
+	cfg.Keys["ts-alt-rec"] = &config.KeyConfig{Token: "rec", Label: "rsa3072", X509Certificate: cfg.Keys["rsa3072"].X509Certificate, Roles: []string{"signer"}, Timestamper: "alt"}
 	if err := env.Install(cfg); err != nil {
 		panic(err)
 	}
 	env.ExternalServer = true
 	env.Leaf["rec-rsa"], env.Leaf["rec-p256"] = env.Leaf["rsa2048a"], env.Leaf["p256a"]
+	env.Leaf["ts-default"], env.Leaf["ts-alt"], env.Leaf["ts-alt-rec"] = env.Leaf["rsa2048a"], env.Leaf["p256a"], env.Leaf["rsa3072"]
 	env.Pgp["rec-rsa"] = env.Pgp["rsa2048a"]
 	code := m.Run()
 	rec.Flush()
@@ -143,7 +172,8 @@ func TestC14_Mixes(t *testing.T) {
 		nclients := rapid.IntRange(2, 32).Draw(t, "clients")
 		nreq := rapid.IntRange(4, 64).Draw(t, "requests")
 		latency := rapid.SampledFrom([]int{0, 0, 1, 5, 20}).Draw(t, "token_latency_ms")
-		rateLimit := rapid.IntRange(0, 3).Draw(t, "ratelimit") == 0
+		rateLimit := rapid.IntRange(0, 2).Draw(t, "ratelimit") == 0
+		tightLimit := rapid.Bool().Draw(t, "ratelimit_tight")
 		shutdown := rapid.IntRange(0, 5).Draw(t, "shutdown") == 0
 		// a few distinct bodies per signature type
 		bodies := map[string][]*arts.Artifact{}
@@ -155,6 +185,7 @@ func TestC14_Mixes(t *testing.T) {
 		}
 		var specs []reqSpec
 		allKeys := append(append([]string{}, pipe.SigningKeys...), recKeys...)
+		allKeys = append(allKeys, "ts-default", "ts-alt", "ts-alt-rec", "ts-default", "ts-alt")
 		for i := 0; i < nreq; i++ {
 			kind := rapid.SampledFrom([]string{"sign", "sign", "sign", "sign", "list", "keyinfo", "health"}).Draw(t, "kind")
 			s := reqSpec{Kind: kind}
@@ -163,6 +194,7 @@ func TestC14_Mixes(t *testing.T) {
 				s.SigType = rapid.SampledFrom(signTypes).Draw(t, "sigtype")
 				s.Key = rapid.SampledFrom(allKeys).Draw(t, "key")
 				if s.SigType == "pgp" {
+					// (the time-stamped keys have no PGP certificate)
 					s.Key = rapid.SampledFrom([]string{"rsa2048a", "rsa3072", "rec-rsa"}).Draw(t, "pgpkey")
 					s.Hash = rapid.SampledFrom([]string{"SHA-256", "SHA-512"}).Draw(t, "hash")
 				} else {
@@ -177,7 +209,12 @@ func TestC14_Mixes(t *testing.T) {
 		// one daemon process per mix (the same race-built binary in daemon mode)
 		env.Cfg.Tokens["rec"].RateLimit, env.Cfg.Tokens["rec"].RateBurst = 0, 0
 		if rateLimit {
+			// 200/s hardly ever makes a request wait; 25/s with a burst of 1 queues
+			// overlapping requests for the token behind each other
 			env.Cfg.Tokens["rec"].RateLimit, env.Cfg.Tokens["rec"].RateBurst = 200, 5
+			if tightLimit {
+				env.Cfg.Tokens["rec"].RateLimit, env.Cfg.Tokens["rec"].RateBurst = 25, 1
+			}
 		}
 		caseNo := atomic.AddInt64(&counter, 1)
 		dir := filepath.Join(workDir, fmt.Sprintf("mix%d", caseNo))
@@ -190,7 +227,7 @@ func TestC14_Mixes(t *testing.T) {
 		}
 		defer d.kill()
 		client := env.HTTPClient()
-		desc := map[string]any{"clients": nclients, "gomaxprocs": procs, "token_latency_ms": latency, "rate_limit": rateLimit, "shutdown": shutdown, "requests": specs}
+		desc := map[string]any{"clients": nclients, "gomaxprocs": procs, "token_latency_ms": latency, "rate_limit": rateLimit, "rate_limit_tight": rateLimit && tightLimit, "shutdown": shutdown, "requests": specs}
 		var failMu sync.Mutex
 		var failure string
 		failf := func(f string, args ...any) {
@@ -279,6 +316,20 @@ func TestC14_Mixes(t *testing.T) {
 				for _, sg := range sigs {
 					if sg.Leaf != nil && bytes.Equal(sg.Leaf.Raw, env.Leaf[s.Key].Raw) && sg.Hash == h {
 						ok = true
+						// the time-stamp is that of the authority configured for this request's key
+						var by *x509.Certificate
+						if x := sg.Sig.X509Signature; x != nil && x.CounterSignature != nil {
+							by = x.CounterSignature.Certificate
+						}
+						want := tsaCert[tsKeys[s.Key]]
+						switch {
+						case want == nil && by != nil:
+							failf("request %d: key %s has no time-stamping configured but the signature is time-stamped by %q", i, s.Key, by.Subject.CommonName)
+						case want != nil && by == nil:
+							failf("request %d: key %s is configured with the %q authority but the signature carries no time-stamp", i, s.Key, tsKeys[s.Key])
+						case want != nil && !bytes.Equal(by.Raw, want.Raw):
+							failf("request %d: key %s is configured with the %q authority but the signature is time-stamped by %q", i, s.Key, tsKeys[s.Key], by.Subject.CommonName)
+						}
 					}
 					if sg.Sig.SignerPgp != nil && env.Pgp[s.Key] != nil && sg.Sig.SignerPgp.PrimaryKey.KeyId == env.Pgp[s.Key].PrimaryKey.KeyId && sg.Hash == h {
 						ok = true
@@ -381,7 +432,7 @@ func TestC14_Mixes(t *testing.T) {
 		nt := overl >= 2 && len(kinds) >= 2 && nclients >= 2
 		rec.Case(fmt.Sprintf("%v", desc), fmt.Sprintf("mix/clients=%d/shutdown=%v/ratelimit=%v", min(nclients/8*8, 32), shutdown, rateLimit), nt)
 		if nt {
-			rec.Sample(fmt.Sprintf("mix/shutdown=%v", shutdown), map[string]any{"clients": nclients, "gomaxprocs": procs, "token_latency_ms": latency, "rate_limit": rateLimit, "shutdown": shutdown, "requests": len(specs), "first_requests": specs[:min(len(specs), 6)]})
+			rec.Sample(fmt.Sprintf("mix/shutdown=%v", shutdown), map[string]any{"clients": nclients, "gomaxprocs": procs, "token_latency_ms": latency, "rate_limit": rateLimit, "rate_limit_tight": rateLimit && tightLimit, "shutdown": shutdown, "requests": len(specs), "first_requests": specs[:min(len(specs), 6)]})
 		}
 		if failure != "" {
 			if blob := d.stderr.String(); len(blob) > 0 {
